@@ -719,7 +719,7 @@ def run(ctx):
         "      match nf' with PInf => isinf | Fin v => negb isinf && PrimFloat.eqb v nf end\n"
         "  | NMErr => Z.eqb code 1%Z | NMFuel => false end.\n")
     cases, meta = [], []
-    nm_count = 800 if thorough else 50
+    nm_count = 800 if thorough else 70
     for case_no in range(nm_count + 3):
         n = rng.randrange(1, 4)
         L = np.array([[rng.randrange(-4, 5) / 4.0 if j < i else (rng.randrange(2, 9) / 4.0 if j == i else 0.0)
@@ -728,7 +728,9 @@ def run(ctx):
         c = np.array([rng.randrange(-16, 17) / 4.0 for _k in range(n)])
         k0 = rng.randrange(-8, 9) / 2.0
         x0 = c + np.array([rng.choice([-1, 1]) * rng.choice([0.25, 1.0, 2.5]) for _k in range(n)])
-        mode = rng.choice(["free", "free", "inactive", "active", "active", "fewiter", "rosenbrock", "zero_start", "badbounds", "degenerate"])
+        mode = rng.choice(["free", "free", "inactive", "active", "active", "fewiter", "rosenbrock", "zero_start", "badbounds", "degenerate", "near_bound", "near_bound", "near_bound"])
+        if case_no < (200 if thorough else 30):
+            mode = "near_bound"      # dedicated stream: shrink-heavy starts next to a bound (see below)
         if mode == "degenerate":     # concave but flat in some direction: exact ties f_r == f_best occur (separates >= from >)
             n = rng.choice([2, 3])
             dg = [rng.choice([0.0, 1.0, 0.5, 2.0]) for _k in range(n)]
@@ -752,6 +754,17 @@ def run(ctx):
             bounds = np.column_stack([lo, hi])
         if mode == "zero_start":
             x0 = x0.copy(); x0[rng.randrange(n)] = 0.0
+        if mode == "near_bound":     # x0 within 5% of the upper (or lower) bound in >= 2 coordinates: vertices x0_i*1.05 are infeasible,
+            n = rng.choice([2, 2, 3])    # the run starts with shrink passes; the maximiser is interior
+            L = np.array([[rng.randrange(-4, 5) / 4.0 if j < i else (rng.randrange(2, 9) / 4.0 if j == i else 0.0) for j in range(n)] for i in range(n)])
+            A = L @ L.T
+            upper = rng.random() < 0.6
+            hi = np.array([rng.choice([1.0, 1.0, 2.0, 0.5]) for _k in range(n)]); lo = -np.array([rng.choice([1.0, 2.0, 5.0]) for _k in range(n)])
+            if not upper: lo, hi = -hi, -lo
+            c = np.array([rng.randrange(-12, 13) / 16.0 * min(abs(lo[k_]), abs(hi[k_])) for k_ in range(n)]); k0 = rng.randrange(-8, 9) / 2.0
+            edge = hi if upper else lo
+            x0 = np.array([edge[k_] * (1 - rng.choice([0.0, 0.01, 0.04])) if (k_ < 2 or rng.random() < 0.5) else c[k_] + 0.25 for k_ in range(n)])
+            bounds = np.column_stack([lo, hi])
         max_iter = rng.choice([1000, 1000, 3, 10]) if mode != "fewiter" else rng.choice([0, 1, 2, 5])
         if case_no == nm_count:      # the recorded witness of finding D12, verbatim
             n = 1; A = np.array([[0.5625]]); c = np.array([0.0]); k0 = -1.0; x0 = np.array([-2.5])
@@ -823,7 +836,19 @@ def run(ctx):
             ctx.count("nelder_mead:returned-vertex-not-best-of-final-simplex(observation)")
         if res.success and int(res.nit) >= max_iter + 1:
             ctx.fail("nelder_mead_nit", "nit > max_iter", inp, impl, None)
-        if res.success and mode in ("free", "inactive", "zero_start") and max_iter >= 1000:
+        if bounds.shape[0] and mode != "rosenbrock":
+            st_ = {}
+            rx_, rneg_ = nm_reference(Fv, x0.tolist(), bounds.tolist(), ps, nonzdelt, zdelt, max_iter, repaired=True, stats=st_)
+            ctx.count("nelder_mead:shrink-passes(reference run)", st_.get("shrinks", 0))
+            ctx.count("nelder_mead:shrink-passes-where-the-worst-vertex-changes", st_.get("shrinks_worst_changed", 0))
+            if st_.get("shrinks_worst_changed"): ctx.count("nelder_mead:runs-with-a-worst-changing-shrink")
+            # the documented algorithm (plain re-run with the order array handled as documented) is the yardstick: a result worse than its
+            # result by > 1e-6 is a defect of the implementation, whatever the known weaknesses (D12, D18) of the algorithm itself are
+            if rneg_ != math.inf and qexact(x) < F_(-rneg_) - Fraction(1, 10**6):
+                ctx.fail("nelder_mead_worse_than_reference", "result worse by > 1e-6 than the plain re-run of the documented iteration "
+                         "(reference: x=%r fun=%r)" % (rx_, -rneg_), dict(inp, reference_shrinks=st_), impl, {"x": rx_, "fun": -rneg_})
+                continue
+        if res.success and mode in ("free", "inactive", "zero_start", "near_bound") and max_iter >= 1000:
             # nelder_mead stops on a function-value spread < tol_f = 1e-10; it carries no accuracy guarantee, so "equal to the
             # maximiser" is checked as: value gap f* - f(x) <= 1e-6 and |x - c|_inf <= 1e-3 (stated, fixed tolerances)
             err = max(abs(float(x[i]) - float(c[i])) for i in range(n))
@@ -1004,7 +1029,7 @@ def F_(x):
     return Fraction(float(x))
 
 
-def nm_reference(fun, x0, bounds, args, nonzdelt, zdelt, max_iter, repaired, tol_f=1e-10, tol_x=1e-10, rho=1.0, chi=2.0, gam=0.5, sig=0.5):
+def nm_reference(fun, x0, bounds, args, nonzdelt, zdelt, max_iter, repaired, tol_f=1e-10, tol_x=1e-10, rho=1.0, chi=2.0, gam=0.5, sig=0.5, stats=None):
     """plain-Python run of the Nelder-Mead iteration; repaired=True keeps the order array a permutation in the shrink step.
     Used only to attribute an oracle failure to the shrink-order line. Returns (x, neg_fun)."""
     INF = math.inf
@@ -1049,6 +1074,10 @@ def nm_reference(fun, x0, bounds, args, nonzdelt, zdelt, max_iter, repaired, tol
                     V[i] = [V[b][j] + sig * (V[i][j] - V[b][j]) for j in range(n)]; fv[i] = nb(V[i])
                 perm = argsort([fv[i] for i in si[1:]]); old = si[1:]
                 si[1:] = [old[p_] for p_ in perm] if repaired else [p_ + 1 for p_ in perm]
+                if stats is not None:
+                    stats["shrinks"] = stats.get("shrinks", 0) + 1
+                    if si[n] != w:
+                        stats["shrinks_worst_changed"] = stats.get("shrinks_worst_changed", 0) + 1
                 xbar = [V[b][j] + sig * (xbar[j] - V[b][j]) + (V[w][j] - V[si[n]][j]) / n for j in range(n)]
                 LV *= sig ** n
         if not shrink:
